@@ -35,7 +35,7 @@ Step == l' = l + 1
 TInit == Init /\ l = 1 /\ pend = [s \in Sessions |-> {}] /\ TLCSet(1, 1)
 
 Skip == /\ l <= NEv
-        /\ Ev.ev \in {"start", "net.dial", "tcp.accept", "relay.req", "client.open", "dh.start", "harness.note"}
+        /\ Ev.ev \in {"start", "net.dial", "tcp.accept", "client.open", "dh.start", "harness.note"}
         /\ Step /\ UNCHANGED <<vars, pend>>
 
 NoHandlerInRet == \A s \in Sessions : hpc[s] \notin {"ret", "ret2"}
@@ -58,13 +58,13 @@ TPoll ==
   /\ (NoHandlerInRet => (Ev.count = clients /\ Ev.len = inUse))
   /\ reported' = [val |-> Ev.clients, inUse |-> inUse]
   /\ mpc' = "polled"
-  /\ UNCHANGED <<inUse, clients, cur, cls, sdp, hpc, released, owner, opened, closed, relayDialed, nNoOffer, nTimeouts, phantom, pcase>>
+  /\ UNCHANGED <<inUse, clients, cur, cls, sdp, hpc, released, owner, opened, closed, relayDialed, nNoOffer, nTimeouts, addr, told, phantom, pcase>>
 TResp ==
   /\ Is("resp") /\ Step /\ UNCHANGED pend
   /\ CASE Ev.kind = "nomatch" -> NoOffer
        [] Ev.kind = "bad" -> BadBrokerResponse
        [] Ev.kind = "undecodable" -> OfferUndecodable
-       [] Ev.kind = "offer" -> Offer(Ev.cls, Ev.sdp)
+       [] Ev.kind = "offer" -> Offer(Ev.cls, Ev.sdp, Ev.addr)
        [] OTHER -> FALSE
 TExit ==
   /\ Is("rs.exit") /\ Ev.g = "main" /\ Step /\ UNCHANGED pend
@@ -88,6 +88,15 @@ TMainTake == Is("tok.ret") /\ Ev.g = "main" /\ MainReleaseTake /\ Step /\ UNCHAN
 (* ---- callback, handler, relay ---- *)
 TOnDC == Is("rs.ondc") /\ DCOpen(Ev.s) /\ Step /\ UNCHANGED pend
 TDial == Is("dh.dial") /\ Ev.g = "h" /\ HandlerDial(Ev.s) /\ Step /\ UNCHANGED pend
+(* the WebSocket request as the relay sees it: `told` takes the client_ip the relay was REALLY told
+   (the rig names it: absent / own address of session k / real / other), so ToldAddrRight speaks
+   about the real connection *)
+TRelayReq ==
+  /\ Is("relay.req") /\ Step /\ UNCHANGED pend
+  /\ hpc[Ev.s] = "dialing"
+  /\ told' = [told EXCEPT ![Ev.s] = [kind |-> Ev.told, of |-> Ev.of]]
+  /\ UNCHANGED <<inUse, clients, mpc, cur, cls, sdp, hpc, released, owner, opened, closed, relayDialed, reported,
+                 nNoOffer, nTimeouts, addr, phantom, pcase>>
 TRelayAccept == Is("relay.accept") /\ RelayAccept(Ev.s) /\ Step /\ UNCHANGED pend
 TRelayRefuse == Is("relay.refuse") /\ RelayDialFail(Ev.s) /\ Step /\ UNCHANGED pend
 
@@ -124,7 +133,7 @@ TDone == l > NEv /\ UNCHANGED tvars
 
 TNext ==
   \/ Skip \/ TGetInc \/ TGet \/ TPoll \/ TResp \/ TExit \/ TAnswer \/ TAResp \/ TTimer \/ TMainDec \/ TMainTake
-  \/ TOnDC \/ TDial \/ TRelayAccept \/ TRelayRefuse \/ TRelayEnd \/ THDec \/ THTake \/ THEnd
+  \/ TOnDC \/ TDial \/ TRelayReq \/ TRelayAccept \/ TRelayRefuse \/ TRelayEnd \/ THDec \/ THTake \/ THEnd
   \/ TPhantomHalf \/ TPhantomGet \/ TPhantomRet
   \/ Silent \/ TEnd \/ TDiverged \/ TDone
 
